@@ -498,3 +498,47 @@ pub fn draw_warning(d: &mut Draw, clocked: bool) -> Inject {
         _ => Inject::WarnShift(0),
     }
 }
+
+/// Prepare a "warning in A caused by B" hook: a fresh constant `= 1` in a
+/// package and, in a module of ANOTHER file, a logical operation on a value of
+/// that width.  Clean as generated; `EditOp::SetConst` to 2 (only the package's
+/// file changes) makes the module's file report `invalid_logical_operand`.
+pub fn add_cross_warning_hook(d: &mut Draw, p: &mut Project) -> Option<(ItemId, usize)> {
+    let mut pairs = vec![];
+    for m in p.modules() {
+        let Some(fm) = p.file_of(m) else { continue };
+        if p.files[fm].is_example() {
+            continue;
+        }
+        for q in p.packages(false) {
+            if q < m
+                && let Some(fq) = p.file_of(q)
+                && fq != fm
+                && !p.files[fq].is_example()
+            {
+                pairs.push((m, q));
+            }
+        }
+    }
+    if pairs.is_empty() {
+        return None;
+    }
+    let (m, q) = pairs[d.below_usize(pairs.len())];
+    let k = p.fresh();
+    p.pkg_mut(q).consts.push(ConstDef {
+        name: format!("C{k}"),
+        val: ConstVal::Lit(1),
+    });
+    let idx = p.pkg(q).consts.len() - 1;
+    let uid = p.fresh();
+    p.module_mut(m).uses.push(Use {
+        uid,
+        kind: UseKind::LogicalOnConst(q, idx),
+    });
+    if p.file_graph_cyclic() {
+        p.module_mut(m).uses.pop();
+        p.pkg_mut(q).consts.pop();
+        return None;
+    }
+    Some((q, idx))
+}
